@@ -223,14 +223,35 @@ func C16(ctx *core.Ctx) {
 				if ex, isEx := c.Common.Value.(*ssa.Extract); isEx && ex.Index == 2 {
 					if nx, isN := ex.Tuple.(*ssa.Next); isN {
 						if rg, isR := nx.Iter.(*ssa.Range); isR && fieldNameOfValue(rg.X) == "processMap" {
-							// unconditional inside the loop body
+							// unconditional: the loop is reached on every path (no return before it) and
+							// every trip through the body makes the call
 							ok = true
+							for ret := range ReturnedValues(pa) {
+								if !ssax.Dominates(rg, ret) {
+									ok = false
+								}
+							}
+							var first ssa.Instruction
+							for _, u := range *nx.Referrers() {
+								if e0, isE := u.(*ssa.Extract); isE && e0.Index == 0 {
+									for _, w := range *e0.Referrers() {
+										if iff, isIf := w.(*ssa.If); isIf && len(iff.Block().Succs[0].Instrs) > 0 {
+											first = iff.Block().Succs[0].Instrs[0]
+										}
+									}
+								}
+							}
+							isCall := func(in ssa.Instruction) bool { return in == c.Instr }
+							isNext := func(in ssa.Instruction) bool { return in == ssa.Instruction(nx) || ssax.IsReturn(in) }
+							if first == nil || (!isCall(first) && ssax.PathFrom(pa, first, isNext, isCall) != nil) {
+								ok = false
+							}
 						}
 					}
 				}
 			}
 		}
-		ctx.Check(ok, "C16.R4", "(*FBaseProcessor).AddMiddleware › applied to every processor function", fnPos(r, pa), "for _, p := range processMap { p.AddMiddleware(m) }", "processor middleware is not applied to every method's processor function")
+		ctx.Check(ok, "C16.R4", "(*FBaseProcessor).AddMiddleware › applied to every processor function", fnPos(r, pa), "for _, p := range processMap { p.AddMiddleware(m) }, unconditionally", "processor middleware is not applied to every method's processor function on every path (a middleware can be skipped: it never intercepts any call)")
 	}
 	if fa := r.Fn("C16.R4", "(*FBaseProcessorFunction).AddMiddleware"); fa != nil {
 		ok := false
